@@ -68,11 +68,14 @@ fn build(case: &Case) -> (BuiltContainer, Vec<Tex>, Vec<TplImage>) {
             .texs
             .iter()
             .map(|t| {
-                let (w, h) = (1 + (t.w % 64) as usize, 1 + (t.h % 64) as usize);
+                // 1..=64 mostly; selectors >= 250 give sides of 65..=1024 (any size is in the statement's domain)
+                let side = |x: u8, s: u64| if x >= 250 { 65 + (s % 960) as usize } else { 1 + (x % 64) as usize };
+                let (w, h) = (side(t.w, t.seed >> 8), side(t.h, t.seed >> 24));
                 let mut r = Mix64(t.seed);
-                let plen = 1 + (r.next() % 256) as usize;
+                // 1..=256 entries; 1 palette in 16 has up to 1024 (the format's count is 16 bits wide; an 8-bit index reaches the first 256)
+                let plen = if t.seed % 16 == 5 { 257 + (r.next() % 768) as usize } else { 1 + (r.next() % 256) as usize };
                 let palette: Vec<u16> = (0..plen).map(|_| r.next() as u16).collect();
-                let indices: Vec<u8> = (0..reftex::ci8_len(w, h)).map(|_| (r.next() % plen as u64) as u8).collect();
+                let indices: Vec<u8> = (0..reftex::ci8_len(w, h)).map(|_| (r.next() % plen.min(256) as u64) as u8).collect();
                 TplImage { w, h, indices, palette }
             })
             .collect();
@@ -83,9 +86,22 @@ fn build(case: &Case) -> (BuiltContainer, Vec<Tex>, Vec<TplImage>) {
             .iter()
             .map(|t| {
                 let fmt = FORMATS[t.fmt as usize % 9];
-                let side = |x: u8| if x >= 250 { 256usize } else { 8usize << (x % 3) }; // ~2 % of random sides are 256
+                // ~2 % of random sides are 256, 512 or 1024 (the hardware maximum)
+                let side = |x: u8| match x {
+                    252 | 253 => 512usize,
+                    254 => 1024,
+                    250..=255 => 256,
+                    _ => 8usize << (x % 3),
+                };
                 let (w, h) = (side(t.w), side(t.h));
-                Tex { name: t.name.clone(), w, h, fmt, payload: payload_for(fmt, w, h, &Fill::Random(t.seed)), mip_tail: if t.seed % 5 == 0 { crate::engine::prop::Mix64(t.seed ^ 77).bytes(fmt.payload_len(w, h) / 4 + fmt.payload_len(w, h) / 16) } else { Vec::new() } }
+                // 1 name in 61 is longer than any fixed-size name buffer one might think of (300+ bytes)
+                let name = if t.seed % 61 == 7 {
+                    let unit = if t.name.is_empty() { "long_name_".to_string() } else { t.name.clone() };
+                    unit.repeat(300 / unit.len().max(1) + 1)
+                } else {
+                    t.name.clone()
+                };
+                Tex { name, w, h, fmt, payload: payload_for(fmt, w, h, &Fill::Random(t.seed)), mip_tail: if t.seed % 5 == 0 { crate::engine::prop::Mix64(t.seed ^ 77).bytes(fmt.payload_len(w, h) / 4 + fmt.payload_len(w, h) / 16) } else { Vec::new() } }
             })
             .collect();
         let mut texs = texs;
@@ -334,6 +350,11 @@ impl Prop for C20 {
         });
         cx.label_if(case.placement != 0, "non-default-placement");
         cx.label_if(n == 0, "no-textures");
+        cx.label_if(texs.iter().any(|t| t.w >= 512 || t.h >= 512), "side>=512");
+        cx.label_if(texs.iter().any(|t| t.w == 1024 || t.h == 1024), "side=1024");
+        cx.label_if(texs.iter().any(|t| t.name.len() >= 260), "name>=260-bytes");
+        cx.label_if(images.iter().any(|i| i.palette.len() > 256), "TPL-palette>256-entries");
+        cx.label_if(images.iter().any(|i| i.w > 64 || i.h > 64), "TPL-side>64");
         cx.label_if(texs.iter().any(|t| !t.mip_tail.is_empty()), "cgfx-mip-chain");
         cx.label_if(case.texs.iter().any(|t| !t.name.is_ascii()) && case.container != Container::Tpl, "non-ascii-name");
         let _ = Fmt::Rgba8;
